@@ -241,13 +241,20 @@ func (pr *ProfileReader) readTagTable(tagTable *TagTable) error {
 	}
 
 	tagDataOffset := tagTableOffset + 4 + (tagCount * 12)
-	tagData := make([]byte, endOfTagData-tagDataOffset)
-	bytesRead, err := io.ReadFull(pr.reader, tagData)
-	if err != nil && err != io.ErrUnexpectedEOF {
-		return err
-	}
-	if bytesRead < len(tagData) {
-		return fmt.Errorf("expected %d bytes of tag data but only got %d", len(tagData), bytesRead)
+
+	// Read the tag data incrementally rather than trusting the declared
+	// extent, and tolerate profiles whose tags all end before the data area
+	// (including profiles with no tags at all).
+	var tagData []byte
+	if endOfTagData > tagDataOffset {
+		tagDataLength := endOfTagData - tagDataOffset
+		tagData, err = io.ReadAll(io.LimitReader(pr.reader, int64(tagDataLength)))
+		if err != nil {
+			return err
+		}
+		if uint32(len(tagData)) < tagDataLength {
+			return fmt.Errorf("expected %d bytes of tag data but only got %d", tagDataLength, len(tagData))
+		}
 	}
 
 	for sig, entry := range tagIndex {
